@@ -117,4 +117,98 @@ theorem extractF_props (f : Fmt) (t : List Char) :
     simp only [after] at hf ⊢
     simp [IStream.good, hf, he]
 
+/-! ## (b) round trips -/
+
+section
+open List
+
+/-- `roundtripZ`: for every integer z, every output stream `fo` (any basefield bits, showbase, showpos, uppercase, any
+    adjustfield, any fill) whose width is ≤ 0 (no padding) and every input stream `fi` with `ReadsBack fo fi`:
+    `in >> y` after `out << z` stores y = z, consumes the whole text and leaves the stream good().  `ReadsBack` is
+      * basefield of `fi` names, with exactly one bit, the base `fo` prints in, and `fo` is not hex with showbase, or
+      * `fi` has no single basefield bit (the classic `in.unsetf (ios::basefield)`: base detected from the prefix) and `fo`
+        prints decimal (then no prefix is written, and 0 comes back through the octal-zero rule) or has showbase (0x / 0X;
+        0 in front of octal digits; the lone "0" of an octal or decimal zero).
+    The exceptions are exact in this sense (examples below): hex + showbase read by a hex stream gives 0 and stops at the
+    x; hex / octal WITHOUT showbase read with auto-detection are taken for decimal ("ff" fails, octal "17" gives 17).
+    This replaces `roundtripZ_partial` (fixed basefield only). -/
+theorem roundtripZ (fo fi : Fmt) (z w : Int) (hw : w ≤ 0) (fill : Char) (hc : ReadsBack fo fi) :
+    extractZ (mkG (insertZ { fmt := fo, width := w, fill := fill } z).out [] fi) =
+      (mkG [] (insertZ { fmt := fo, width := w, fill := fill } z).out.reverse fi, .value z) := by
+  have htext : (insertZ { fmt := fo, width := w, fill := fill } z).out =
+      (signStr fo (decide (z < 0)) ++ (prefixStr fo (decide (z.natAbs = 0)) ++ natDigits fo.outBase fo.outUpper z.natAbs)) ++ [] := by
+    rw [insertZ_eq]
+    simp only [fieldLayout_nopad _ _ _ _ _ _ hw, decide_natAbs z]
+    simp [OStream.write, OStream.good]
+  rw [htext, extractZ_at]
+  simp only [wsPrefix_nil fi _ (written_head fo z []), length_nil, drop_zero, reverse_nil, nil_append]
+  rw [numSpec_written fo fi hc (decide (z < 0)) z.natAbs _ [] (signStr_cases fo z) (Or.inl rfl), natAbs_val]
+  simp only [append_nil]
+  generalize signStr fo (decide (z < 0)) ++ (prefixStr fo (decide (z.natAbs = 0)) ++ natDigits fo.outBase fo.outUpper z.natAbs) = T
+  simp [after, mkG]
+
+end
+
+-- non-vacuity: auto-detection of what showbase wrote, in each base; decimal zero through the octal-zero rule
+example : extractZ (mkG (insertZ { fmt := { dec := false, hex := true, showbase := true, uppercase := true } } (-255)).out [] { dec := false }) =
+    (mkG [] "-0XFF".toList.reverse { dec := false }, .value (-255)) := by decide +kernel
+example : extractZ (mkG (insertZ { fmt := { dec := false, oct := true, showbase := true, showpos := true } } 15).out [] { dec := false }) =
+    (mkG [] "+017".toList.reverse { dec := false }, .value 15) := by decide +kernel
+example : extractZ (mkG (insertZ { fmt := {} } 0).out [] { dec := false }) = (mkG [] ['0'] { dec := false }, .value 0) := by decide +kernel
+-- the exceptions are real: without showbase auto-detection takes hex / octal text for decimal
+example : (extractZ (mkG (insertZ { fmt := { dec := false, hex := true } } 255).out [] { dec := false })).2 = .unchanged ∧
+    (extractZ (mkG (insertZ { fmt := { dec := false, oct := true } } 15).out [] { dec := false })).2 = .value 17 ∧
+    (extractZ (mkG (insertZ { fmt := { dec := false, hex := true } } 16).out [] { dec := false })).2 = .value 10 ∧
+    (extractZ (mkG (insertZ { fmt := { dec := false, hex := true, showbase := true } } 31).out [] { dec := false, hex := true })).2 = .value 0 := by
+  decide +kernel
+
+section
+open List
+
+/-- `roundtripQ`: for every rational n/d with d > 0 (canonical or not), every output stream `fo` with width ≤ 0 and
+    every input stream `fi` with `ReadsBack fo fi` (see `roundtripZ`): `in >> q` after `out << n/d` stores numerator n and
+    denominator d, consumes the whole text and leaves the stream good().  (The denominator carries its own base prefix
+    under showbase and is read with its own base detection; for d = 1 no "/1" is written and the extractor stores 1.) -/
+theorem roundtripQ (fo fi : Fmt) (n d w : Int) (hd : 0 < d) (hw : w ≤ 0) (fill : Char) (hc : ReadsBack fo fi) :
+    extractQ (mkG (insertQ { fmt := fo, width := w, fill := fill } n d).out [] fi) =
+      (mkG [] (insertQ { fmt := fo, width := w, fill := fill } n d).out.reverse fi, .value n, .value d) := by
+  have hdz : decide (d.natAbs = 0) = false := by simp; omega
+  have hdv : ((d.natAbs : Nat) : Int) = d := by omega
+  have htext : (insertQ { fmt := fo, width := w, fill := fill } n d).out =
+      (signStr fo (decide (n < 0)) ++ (prefixStr fo (decide (n.natAbs = 0)) ++ natDigits fo.outBase fo.outUpper n.natAbs)) ++
+        (if d = 1 then [] else '/' :: (([] ++ (prefixStr fo (decide (d.natAbs = 0)) ++ natDigits fo.outBase fo.outUpper d.natAbs)) ++ [])) := by
+    rw [insertQ_eq _ _ _ hd]
+    simp only [fieldLayout_nopad _ _ _ _ _ _ hw, decide_natAbs n, hdz]
+    simp [OStream.write, OStream.good]
+  rw [htext, extractQ_spec']
+  generalize hA : signStr fo (decide (n < 0)) ++ (prefixStr fo (decide (n.natAbs = 0)) ++ natDigits fo.outBase fo.outUpper n.natAbs) = A
+  have hnum : ∀ tail, TailOk tail → numSpec fi (A ++ tail) = ⟨A.length, .value n, false, false⟩ := by
+    intro tail ht
+    rw [← hA, numSpec_written fo fi hc (decide (n < 0)) n.natAbs _ tail (signStr_cases fo n) ht, natAbs_val]
+  have hws : ∀ tail, wsPrefix fi (A ++ tail) = [] := by
+    intro tail; rw [← hA]; exact wsPrefix_nil fi _ (written_head fo n tail)
+  unfold specQ
+  by_cases h1 : d = 1
+  · subst h1
+    simp only [if_true, hws, length_nil, drop_zero, reverse_nil, hnum [] (Or.inl rfl)]
+    simp [after, mkG]
+  · simp only [h1, if_false, hws, length_nil, drop_zero, reverse_nil]
+    generalize hV : ([] ++ (prefixStr fo (decide (d.natAbs = 0)) ++ natDigits fo.outBase fo.outUpper d.natAbs)) = V
+    have hden : numSpec fi (V ++ []) = ⟨V.length, .value d, false, false⟩ := by
+      rw [← hV, numSpec_written fo fi hc false d.natAbs [] [] (Or.inl ⟨rfl, rfl⟩) (Or.inl rfl)]
+      simp [hdv]
+    rw [hnum ('/' :: (V ++ [])) (Or.inr ⟨_, rfl⟩)]
+    simp only [Bool.false_eq_true, if_false, drop_left']
+    rw [hden]
+    simp [after, mkG]
+
+end
+
+example : extractQ (mkG (insertQ { fmt := { dec := false, hex := true, showbase := true } } (-255) 16).out [] { dec := false }) =
+    (mkG [] "-0xff/0x10".toList.reverse { dec := false }, .value (-255), .value 16) := by decide +kernel
+example : extractQ (mkG (insertQ { fmt := { dec := false, oct := true, showbase := true } } 0 8).out [] { dec := false, oct := true }) =
+    (mkG [] "0/010".toList.reverse { dec := false, oct := true }, .value 0, .value 8) := by decide +kernel
+example : extractQ (mkG (insertQ { fmt := { showpos := true } } 6 4).out [] {}) = (mkG [] "+6/4".toList.reverse {}, .value 6, .value 4) ∧
+    extractQ (mkG (insertQ { fmt := {} } 5 1).out [] { dec := false }) = (mkG [] ['5'] { dec := false }, .value 5, .value 1) := by decide +kernel
+
 end Mpir.CxxIo
